@@ -255,6 +255,11 @@ Theorem verify_skeleton_agrees :
 Proof. reflexivity. Qed.
 Print Assumptions verify_skeleton_agrees.
 
+Theorem sync_state_reset_sites_agree :
+  Gen.Skeleton.sync_state_reset_sites = Db.Skeleton.expected_sync_state_reset_sites.
+Proof. reflexivity. Qed.
+Print Assumptions sync_state_reset_sites_agree.
+
 (** * Refinement of the byte-level decision to the machine's (Db/VerifyRefine.v)
 
     [Db.Verify.verify] — the byte-level model of verifyWithExecutor that is compared with db.go
